@@ -366,6 +366,25 @@ func TestVerif_C11(t *testing.T) {
 	if t.Failed() {
 		return
 	}
+	if vfOnlySub("huge") && !vfReplayMode() && vfShard() < 2 {
+		kind := []string{"text-latin-tail", "text-utf8-then-bad"}[vfShard()]
+		for _, n := range []int{70000, 1200000} {
+			x := vfBig(kind, n)
+			for _, L := range []uint32{0, uint32(len(x)), uint32(len(x) + 1), 2 << 20} {
+				c := c11Case{X: x, Limit: L, Via: "detect"}
+				r := c11Check(c)
+				r.Labels = append(r.Labels, "huge")
+				vfStats.record(r, func() any { return map[string]any{"sub": "huge", "kind": kind, "len": len(x), "limit": L} })
+				if r.Err != nil {
+					vfEnumFail(t, "C11", "gen", c11Case{X: x[len(x)-200:], Limit: 0, Via: "detect"}, fmt.Errorf("%d-byte text whose deciding bytes are at the very end: %v", len(x), r.Err))
+					return
+				}
+			}
+		}
+	}
+	if t.Failed() {
+		return
+	}
 	if vfOnlySub("gen") {
 		vfRun(t, vfSub[c11Case]{Prop: "C11", Name: "gen", Checks: vfN(100000, 40000000), Gen: c11Gen, Check: c11Check})
 	}
